@@ -85,6 +85,14 @@ mod harness {
                 if q < npeers && consistent[q] { assert!(!G.banned[q], "SPEC check points: a peer consistent with the final check point was banned"); }
                 q += 1;
             }
+            // completeness: FEWER deviating (silent, shorter, disagreeing, inconsistent) peers than the quorum cannot block a quorum that agrees on the NEXT check point
+            let mut x = 0u8;
+            while x < 3 {
+                let mut cnt = 0; let mut q = 0;
+                while q < NP { if q < npeers && consistent[q] { let pos = (last_idx - starts[q]) as usize + 1; if pos < vecs[q].len && vecs[q].buf[pos] == Byte32(x) { cnt += 1; } } q += 1; }
+                if cnt >= required && npeers - cnt < required { assert!(G.upd_calls == 1, "SPEC check points: a quorum agrees on the next check point and fewer peers than the quorum deviate, but nothing was finalized (agreement blocked)"); kani::cover!(npeers > cnt, "a quorum finalizes although another peer is silent or deviates"); }
+                x += 1;
+            }
             if G.upd_calls == 1 {
                 assert!(G.upd_start == last_idx + 1, "SPEC check points: written range does not start right after the final index (a final value would be rewritten or skipped)");
                 assert!(G.upd_len >= 1 && G.new_max == last_idx + G.upd_len as u32, "SPEC check points: final index not strictly increased to the end of the written range");
